@@ -52,6 +52,18 @@ claim('C12',
       'conversion, the objno line of the .sol writer.',
       'DESIGN.md 4 C12')
 
+claim('C15',
+      'HandleSigInt gets a function contract (counter +1 or exit on the third signal, at most one callback invoked with the '
+      'handler_/data_ pair it read, re-armed, nothing written when the message size is 0) proved on its real body with a loop '
+      'contract; the constructor, SetHandler and the destructor are then verified with a delivery point after EVERY statement '
+      '(inserted mechanically) where 1..3 signals may run that contract: pairing invariant at every boundary, not-lost, '
+      'third-signal exit, teardown. A same-thread signal handler runs to completion between two statements, so these '
+      'sequential nondeterministic programs cover every schedule of the statement\'s quantifier.',
+      'Trusted: CBMC, extractor, atomics/sig_atomic_t as single steps w.r.t. a same-thread handler, stubs for write/signal/_exit, '
+      'the constructor\'s member-initialiser list dropped. A signal in SetHandler\'s disarmed window invokes no callback (accepted: '
+      'neither registration is complete). Not decided: other-thread delivery, nested signals, Windows repeater.',
+      'DESIGN.md 4 C15')
+
 for pid, reason in [
     ('C01', 'relational whole-pipeline equivalence across ~12k lines of CRTP templates; no function boundary carries it and the code is outside the mechanically extractable C subset (DESIGN.md 5)'),
     ('C09', 'whole-process behaviour (exit status, files, exception propagation through try/catch) - not expressible as function contracts here (DESIGN.md 5)'),
